@@ -14,10 +14,10 @@ packet `(key, epoch, nonce, ad, plaintext)`, or a junk byte.  Fragmentation,
 truncation, splicing, reordering, replay and reflection are operations on
 such lists.
 
-`cipherState` of the code is `{nonce, secretKey, salt}`; the model keeps
-`{salt0, key0, epoch, nonce}` where `(salt0, key0)` are the values installed by
-`InitializeKeyWithSalt` and `epoch` counts `rotateKey` calls; the code's
-`(salt, secretKey)` is `ratchet salt0 key0 epoch` (HKDF applied `epoch` times).
+`cipherState` of the code is `{nonce, secretKey, salt}` and so is the model's
+`CipherState {salt, key, nonce}`; `rotateKey` replaces `(salt, key)` by the two
+HKDF outputs.  A packet is identified by exactly what the AEAD sees: key term,
+nonce, associated data, plaintext.
 -/
 namespace LndModel.C11
 
@@ -79,31 +79,31 @@ def mkDh (a b : Nat) : Term := .dh (min a b) (max a b)
 /-! ### transport cipher state -/
 
 structure CipherState where
-  salt0 : Term
-  key0 : Term
-  /-- number of `rotateKey` calls since `InitializeKeyWithSalt` -/
-  epoch : Nat
+  /-- `cipherState.salt` -/
+  salt : Term
+  /-- `cipherState.secretKey` -/
+  key : Term
   nonce : Nat
 deriving DecidableEq, Repr, Inhabited
 
-/-- `(salt, secretKey)` after `n` calls of `rotateKey`. -/
+/-- `(salt, secretKey)` after `n` calls of `rotateKey` starting from `(s, k)`. -/
 def ratchet (s k : Term) : Nat → Term × Term
   | 0 => (s, k)
   | n + 1 => (.kdf1 (ratchet s k n).1 (ratchet s k n).2, .kdf2 (ratchet s k n).1 (ratchet s k n).2)
 
-/-- the code's `secretKey`. -/
-def CipherState.keyT (c : CipherState) : Term := (ratchet c.salt0 c.key0 c.epoch).2
-/-- the code's `salt`. -/
-def CipherState.saltT (c : CipherState) : Term := (ratchet c.salt0 c.key0 c.epoch).1
+/-- `rotateKey`: `hkdf(secret = key, salt = salt)` → new salt, new key; nonce back to 0. -/
+def CipherState.rotate (c : CipherState) : CipherState :=
+  { salt := .kdf1 c.salt c.key, key := .kdf2 c.salt c.key, nonce := 0 }
 
 /-- the deferred block of `Encrypt`/`Decrypt`: `nonce++`, rotate when it equals
     `keyRotationInterval`. -/
 def CipherState.advance (c : CipherState) : CipherState :=
-  if c.nonce + 1 = keyRotationInterval then { c with epoch := c.epoch + 1, nonce := 0 }
+  if c.nonce + 1 = keyRotationInterval then c.rotate
   else { c with nonce := c.nonce + 1 }
 
+/-- `InitializeKeyWithSalt` -/
 def CipherState.init (salt key : Term) : CipherState :=
-  { salt0 := salt, key0 := key, epoch := 0, nonce := 0 }
+  { salt := salt, key := key, nonce := 0 }
 
 /-- A byte string: `len` bytes whose content is identified by `val`
     (big-endian value; the driver uses the SHA-256 digest for long strings). -/
@@ -112,18 +112,23 @@ structure Msg where
   val : Nat
 deriving DecidableEq, Repr, Inhabited
 
-/-- AEAD output of the transport phase. -/
+/-- AEAD output of the transport phase: what ChaCha20-Poly1305 is given. Two
+    packets are the same byte string iff all four components agree. -/
 structure Packet where
-  epoch : Nat
   nonce : Nat
   pt : Msg
   ad : Term
-  key0 : Term
-  salt0 : Term
+  key : Term
 deriving DecidableEq, Repr, Inhabited
 
+/-- Same decision procedure, but physically identical objects are recognised
+    without walking the key term (all bytes of one rendered packet share the
+    packet object).  Logically this is just the derived instance. -/
+instance (priority := high) Packet.fastDecEq : DecidableEq Packet :=
+  fun p q => withPtrEqDecEq p q (fun _ => instDecidableEqPacket p q)
+
 def CipherState.seal (c : CipherState) (ad : Term) (m : Msg) : Packet :=
-  { epoch := c.epoch, nonce := c.nonce, pt := m, ad := ad, key0 := c.key0, salt0 := c.salt0 }
+  { nonce := c.nonce, pt := m, ad := ad, key := c.key }
 
 /-- `cipherState.Encrypt`. -/
 def encrypt (c : CipherState) (ad : Term) (m : Msg) : Packet × CipherState :=
@@ -168,14 +173,21 @@ deriving DecidableEq, Repr
 /-- the two-byte big-endian length prefix -/
 def lenMsg (n : Nat) : Msg := { len := lengthHeaderSize, val := n }
 
-/-- `Machine.WriteMessage`. -/
-def writeMessage (s : Sender) (m : Msg) : Except WErr Sender :=
+/-- `Machine.WriteMessage`, returning also the packets produced by its two
+    `Encrypt` calls (ghost output, used for the (key, nonce) log). -/
+def writeMessageL (s : Sender) (m : Msg) : Except WErr (Sender × List Packet) :=
   if m.len > maxPayload then .error .tooLong
   else if s.hdr ≠ [] ∨ s.body ≠ [] then .error .notFlushed
   else
-    let (ph, c1) := encrypt s.cs Term.empty (lenMsg m.len)
-    let (pb, c2) := encrypt c1 Term.empty m
-    .ok { cs := c2, hdr := render ph, body := render pb }
+    let e1 := encrypt s.cs Term.empty (lenMsg m.len)
+    let e2 := encrypt e1.2 Term.empty m
+    .ok ({ cs := e2.2, hdr := render e1.1, body := render e2.1 }, [e1.1, e2.1])
+
+/-- `Machine.WriteMessage`. -/
+def writeMessage (s : Sender) (m : Msg) : Except WErr Sender :=
+  match writeMessageL s m with
+  | .ok r => .ok r.1
+  | .error e => .error e
 
 /-- An `io.Writer` that accepts `budget` more bytes (`none` = unlimited) and
     reports a timeout on a short write; when `eager` also as soon as the budget
@@ -315,6 +327,38 @@ def sendAll (s : Sender) : List SendStep → Option (List WByte × Sender)
       | none => none
       | some (o', s3) => some (t.1 ++ o', s3)
 
+/-! ### arbitrary operation traces on the sending side -/
+
+inductive Op where
+  | write (m : Msg)
+  | flush (budget : Option Nat) (eager : Bool)
+deriving Repr
+
+/-- sending side with ghost history -/
+structure Trace where
+  s : Sender
+  /-- every packet produced by an `Encrypt` call so far, oldest first -/
+  log : List Packet
+  /-- every byte handed to the writer so far -/
+  wire : List WByte
+  /-- the messages `WriteMessage` accepted so far -/
+  accepted : List Msg
+
+def Trace.start (c : CipherState) : Trace :=
+  { s := { cs := c, hdr := [], body := [] }, log := [], wire := [], accepted := [] }
+
+/-- one operation; a refused `WriteMessage` changes nothing. -/
+def Trace.step (t : Trace) : Op → Trace
+  | .write m =>
+    match writeMessageL t.s m with
+    | .ok r => { t with s := r.1, log := t.log ++ r.2, accepted := t.accepted ++ [m] }
+    | .error _ => t
+  | .flush b e =>
+    let r := flush t.s b e
+    { t with s := r.st, wire := t.wire ++ r.out }
+
+def runOps (t : Trace) (ops : List Op) : Trace := ops.foldl Trace.step t
+
 /-! ### handshake -/
 
 /-- the 33-byte key field of an act as parsed by `btcec.ParsePubKey` -/
@@ -365,6 +409,8 @@ structure HState where
   /-- identity behind `remoteStatic` -/
   rs : Option Nat
   re : Option Nat
+  /-- ghost: the `(key, nonce)` of every `Encrypt` call made so far, newest first -/
+  uses : List (Term × Nat) := []
 deriving DecidableEq, Repr, Inhabited
 
 def HState.mixHash (s : HState) (d : Term) : HState := { s with h := .hash s.h d }
@@ -375,7 +421,7 @@ def HState.mixKey (s : HState) (input : Term) : HState :=
 /-- `EncryptAndHash` -/
 def HState.encryptAndHash (s : HState) (pt : Term) : Term × HState :=
   let c := Term.aead s.k s.n s.h pt
-  (c, { s with n := s.n + 1, h := .hash s.h c })
+  (c, { s with n := s.n + 1, h := .hash s.h c, uses := (s.k, s.n) :: s.uses })
 
 /-- `cipher.Open` on a handshake field. -/
 def hsOpen (k : Term) (n : Nat) (ad : Term) : CtField → Option Term
@@ -481,9 +527,10 @@ def recvActThree (s : HState) (a : Act3) : Except HErr (CipherState × CipherSta
 /-- outcome of a full three-act exchange between an initiator (static `is`,
     ephemeral `ie`, dialling the key with identity `target`) and a responder
     (static `rs`, ephemeral `re`), all acts delivered unaltered. Returns the
-    initiator's and the responder's `(send, recv)` cipher states. -/
-def runHandshake (is ie target rs re : Nat) :
-    Option ((CipherState × CipherState) × (CipherState × CipherState)) :=
+    initiator's and the responder's `(send, recv)` cipher states and the two
+    final handshake states. -/
+def runHandshakeStates (is ie target rs re : Nat) :
+    Option ((CipherState × CipherState) × (CipherState × CipherState) × HState × HState) :=
   let i0 := HState.new true is (some target)
   let r0 := HState.new false rs none
   match genActOne i0 ie with
@@ -500,9 +547,150 @@ def runHandshake (is ie target rs re : Nat) :
         | (.ok (), i2) =>
           match genActThree i2 with
           | (.error _, _) => none
-          | (.ok (a3, ikeys), _) =>
+          | (.ok (a3, ikeys), i3) =>
             match recvActThree r2 a3 with
             | (.error _, _) => none
-            | (.ok rkeys, _) => some (ikeys, rkeys)
+            | (.ok rkeys, r3) => some (ikeys, rkeys, i3, r3)
+
+def runHandshake (is ie target rs re : Nat) :
+    Option ((CipherState × CipherState) × (CipherState × CipherState)) :=
+  (runHandshakeStates is ie target rs re).map (fun r => (r.1, r.2.1))
+
+/-! ### conn.go / listener.go: `Dial` against `Listener.doHandshake`, `Conn.Write`, `Conn.Read` -/
+
+/-- what happens to the handshake bytes in flight -/
+inductive Tamper where
+  | none
+  /-- one byte at stream offset `off` of the initiator→responder (`toResp`) or the
+      responder→initiator stream is altered; `pk` = how the key field parses then -/
+  | flip (toResp : Bool) (off : Nat) (pk : PubField)
+  /-- the stream is cut after `off` bytes -/
+  | cut (toResp : Bool) (off : Nat)
+deriving DecidableEq, Repr
+
+inductive ConnRes where
+  | ok
+  /-- read/write error on the connection (EOF, closed) -/
+  | io
+  | hs (e : HErr)
+deriving DecidableEq, Repr
+
+def tamper12 (a : Act12) (off : Nat) (pk : PubField) : Act12 :=
+  if off = 0 then { a with ver := a.ver + 1 }
+  else if off ≤ pubKeySize then { a with e := pk }
+  else { a with tag := .junk }
+
+def tamper3 (a : Act3) (off : Nat) : Act3 :=
+  if off = 0 then { a with ver := a.ver + 1 }
+  else if off ≤ pubKeySize + macSize then { a with c := .junk }
+  else { a with tag := .junk }
+
+structure ConnOut where
+  dial : ConnRes
+  accept : ConnRes
+  /-- static key the listener reports for the peer -/
+  rpub : Option Nat
+  keys : Option ((CipherState × CipherState) × (CipherState × CipherState))
+deriving Repr
+
+/-- `Dial` (conn.go) running against `Listener.doHandshake` (listener.go): act
+    order, who notices which failure (a side that fails closes the connection,
+    the other side's pending read then fails with an I/O error; `Dial` returns
+    as soon as act three is written). -/
+def connHandshake (is ie target rs re : Nat) (t : Tamper) : ConnOut :=
+  let i0 := HState.new true is (some target)
+  let r0 := HState.new false rs none
+  let fail (d a : ConnRes) : ConnOut := { dial := d, accept := a, rpub := none, keys := none }
+  match genActOne i0 ie with
+  | (.error e, _) => fail (.hs e) .io
+  | (.ok a1, i1) =>
+    match (match t with
+           | .cut true off => if off < actOneSize then none else some a1
+           | .flip true off pk => if off < actOneSize then some (tamper12 a1 off pk) else some a1
+           | _ => some a1) with
+    | none => fail .io .io
+    | some a1 =>
+      match recvActOne r0 a1 with
+      | (.error e, _) => fail .io (.hs e)
+      | (.ok (), r1) =>
+        match genActTwo r1 re with
+        | (.error e, _) => fail .io (.hs e)
+        | (.ok a2, r2) =>
+          match (match t with
+                 | .cut false _ => none
+                 | .flip false off pk => some (tamper12 a2 off pk)
+                 | _ => some a2) with
+          | none => fail .io .io
+          | some a2 =>
+            match recvActTwo i1 a2 with
+            | (.error e, _) => fail (.hs e) .io
+            | (.ok (), i2) =>
+              match genActThree i2 with
+              | (.error e, _) => fail (.hs e) .io
+              | (.ok (a3, ikeys), _) =>
+                match (match t with
+                       | .cut true _ => none
+                       | .flip true off _ => some (tamper3 a3 (off - actOneSize))
+                       | _ => some a3) with
+                | none => fail .ok .io
+                | some a3 =>
+                  match recvActThree r2 a3 with
+                  | (.error e, _) => fail .ok (.hs e)
+                  | (.ok rkeys, r3) =>
+                    { dial := .ok, accept := .ok, rpub := r3.rs, keys := some (ikeys, rkeys) }
+
+/-- lengths of the records `Conn.Write` produces for `n` bytes: one record up to
+    65535 bytes (also for 0), otherwise full records and a last shorter one. -/
+def chunkLensF : Nat → Nat → List Nat
+  | 0, n => [n]
+  | f + 1, n => if n ≤ maxPayload then [n] else maxPayload :: chunkLensF f (n - maxPayload)
+
+def chunkLens (n : Nat) : List Nat := chunkLensF n n
+
+inductive CWErr where
+  | none
+  | timeout
+  | refused (e : WErr)
+deriving DecidableEq, Repr
+
+structure ConnWriteRes where
+  /-- `bytesWritten` -/
+  n : Nat
+  err : CWErr
+  out : List WByte
+  st : Sender
+  budget : Option Nat
+  /-- ghost: records for which `WriteMessage` succeeded -/
+  written : List Msg
+
+/-- the loop of `Conn.Write` over the chunk list (for one chunk it coincides
+    with the single-record branch): `WriteMessage`, `Flush`, add the count, stop
+    at the first error. -/
+def connWrite (s : Sender) (budget : Option Nat) : List Msg → ConnWriteRes
+  | [] => { n := 0, err := .none, out := [], st := s, budget := budget, written := [] }
+  | c :: cs =>
+    match writeMessage s c with
+    | .error e => { n := 0, err := .refused e, out := [], st := s, budget := budget, written := [] }
+    | .ok s1 =>
+      let r := flush s1 budget false
+      if r.err then
+        { n := r.nn, err := .timeout, out := r.out, st := r.st, budget := r.budget, written := [c] }
+      else
+        let t := connWrite r.st r.budget cs
+        { n := r.nn + t.n, err := t.err, out := r.out ++ t.out, st := t.st, budget := t.budget,
+          written := c :: t.written }
+
+/-- the `ReadMessage` calls behind a `Conn.Read` loop that wants `want` bytes
+    (at least one record is read). -/
+def connReadMsgs : Nat → Nat → CipherState → List WByte → List Msg × Option RErr × CipherState × List WByte
+  | 0, _, c, w => ([], none, c, w)
+  | fuel + 1, want, c, w =>
+    match readMessage c w with
+    | (.error e, c', w') => ([], some e, c', w')
+    | (.ok m, c', w') =>
+      if m.len ≥ want then ([m], none, c', w')
+      else
+        let r := connReadMsgs fuel (want - m.len) c' w'
+        (m :: r.1, r.2.1, r.2.2.1, r.2.2.2)
 
 end LndModel.C11
